@@ -21,6 +21,9 @@ CHECKS = {
  "C07": (MC, "explicit-state breadth-first search over generation / set_pos / set_condition / model-refresh histories on real CondSRF(Krige) objects; reference state dict + freshly built objects as differential oracle; conditioning formula re-computed from an independent unconditional SRF",
          "All histories up to depth 3 (thorough 4) over 19-20 operations (calls with new / kept / close / caller-mutated / structured positions and new / kept seeds, set_pos, set_condition with new values or positions, in-place model change + documented refresh, model / mean / trend / normalizer re-assignment, direct kriging call) on Simple, Ordinary, Universal and Detrended conditioning; after each generating call the stored kriging parts, raw field and (nugget-free) full field are compared with freshly built objects, the data are checked at the conditioning points and the far field under simple kriging. A product enumeration on fresh objects pins the formula including its nugget part.",
          "zero measurement error configurations; kriging correctness itself is C05/C06; bounded depth and alphabet", "5/C07"),
+ "C20": (MC, "exhaustive enumeration of (public entry point x option combination x array layout) with before/after snapshots of every array argument, plus breadth-first search over store / transform / call histories on Field, SRF, Krige and CondSRF objects with snapshots of all earlier results",
+         "Every enumerated call is executed with C-contiguous float64 arrays already in target shape (the layout that lets np.asarray alias), Fortran-ordered and read-only arrays (a write then raises); all argument roles are compared bit-wise after the call. The history search executes every sequence (depth 2, thorough 3) of call(store, post_process) / transform(method, source, target, process, keep_mean) / delete and checks that every array returned earlier and every stored field other than the named target is bit-identical.",
+         "entry points and options as enumerated in the evidence; vtk export / plotting not explored", "5/C20"),
 }
 PENDING = {}
 def main():
